@@ -56,7 +56,7 @@ def random_triples(rep, pid, n, chunk=0):
     unspec = len({int(t.split(",")[0]) for t in res.tuples("UNSPEC")})
     for i in bad:
         c, o = cases[i - 1], obs[i - 1]
-        what = "panic" if o["out"].startswith("panic") else "random/%s-got-%s" % (c["e"]["type"], o["out"])
+        what = "panic" if o["out"].startswith("panic") else "random/%s-got-%s" % (c["e"]["type"], o["out"].split(" ")[0] + ("-depending-on-the-spelling-of-a-non-integer" if " but " in o["out"] else ""))
         rep.violation("auth/%s" % what, {"v": c["v"], "state": [x["c"] | {"id": x["id"], "type": x["type"], "sender": x["sender"], "key": x["key"]} for x in c["st"]],
                                           "event": c["e"]["c"] | {k: c["e"][k] for k in ("type", "sender", "key", "haskey", "prev", "auth", "idserver")},
                                           "observed": o["out"]})
